@@ -25,7 +25,7 @@
 
 /* ---- ghost state ------------------------------------------------------ */
 static int g_dec_calls, g_mac_calls, g_hs_calls, g_enc_calls, g_activate_calls, g_createkeys_calls;
-static unsigned char *g_dec_in, *g_dec_out;
+static unsigned char *g_dec_in, *g_dec_out, *g_first_dec_in;
 static uint32 g_dec_len;
 static int32 g_dec_rc, g_mac_rc;
 static unsigned char *g_mac_data, *g_mac_mac;
@@ -43,6 +43,10 @@ static int32 vf_decrypt(void *ctx, unsigned char *in, unsigned char *out, uint32
     uint32 i;
     int32 rc = vf_i32();
 
+    if (g_dec_calls == 0)
+    {
+        g_first_dec_in = in;
+    }
     g_dec_calls++;
     g_dec_in = in;
     g_dec_out = out;
@@ -99,10 +103,6 @@ static int32 parseSSLHandshake(ssl_t *ssl, char *inbuf, uint32 len)
     g_hs_calls++;
     g_hs_state_at_parse = ssl->hsState;
     ssl->hsState = vf_u8();
-    if (vf_bool())
-    {
-        ssl->err = vf_u8();
-    }
     switch (k & 7)
     {
     case 0: rc = MATRIXSSL_SUCCESS; break;
@@ -111,6 +111,11 @@ static int32 parseSSLHandshake(ssl_t *ssl, char *inbuf, uint32 len)
     case 3: rc = SSL_MEM_ERROR; break;
     case 4: rc = DTLS_RETRANSMIT; break;
     default: rc = vf_i32(); break;
+    }
+    /* contract: ssl->err (the alert to send) is only set on failure returns */
+    if (rc != MATRIXSSL_SUCCESS && rc != SSL_PROCESS_DATA && rc != DTLS_RETRANSMIT && vf_bool())
+    {
+        ssl->err = vf_u8();
     }
     return rc;
 }
@@ -136,7 +141,7 @@ static int32 vf_encode_common(ssl_t *ssl, sslBuf_t *out, uint32 *requiredLen)
     default:
     {
         int32 rc = vf_i32();
-        VF_ASSUME(rc < 0 && rc != SSL_FULL);
+        VF_ASSUME(rc < 0 && rc > SSL_FULL); /* PS_* failure codes, not a decode status */
         return rc;
     }
     }
@@ -187,6 +192,7 @@ VF_MAIN
     int32 error = 0, rc;
     unsigned char alertLevel = 0, alertDescription = 0;
     ssl_t pre;
+    sslSessionId_t pre_sid;
     unsigned char in_copy[VF_N];
     uint32 len0;
 
@@ -229,6 +235,7 @@ VF_MAIN
     buf = S_inbuf;
     len0 = len;
     pre = S;
+    pre_sid = S_sid;
     memcpy(in_copy, S_inbuf, VF_N);
 
     rc = matrixSslDecodeTls12AndBelow(ssl, &buf, &len, size, &remaining, &requiredLen,
@@ -237,7 +244,9 @@ VF_MAIN
     /* ------------------------------------------------------------------ */
     if (rc == SSL_PROCESS_DATA)
     {
+#if defined(VF_GROUP_C01) || defined(VF_GROUP_C02) || defined(VF_GROUP_C08)
         VF_REACH("process_data");
+#endif
 #ifdef VF_GROUP_C01
         VF_ASSERT(ssl->rec.type == SSL_RECORD_TYPE_APPLICATION_DATA, "c01.type_is_appdata");
         VF_ASSERT(pre.hsState == SSL_HS_DONE || pre.hsState == SSL_HS_SERVER_HELLO, "c01.hs_done");
@@ -330,7 +339,7 @@ VF_MAIN
         VF_ASSERT(g_hs_state_at_activate == SSL_HS_FINISHED, "c06.activate_only_when_finished_expected");
         VF_ASSERT(pre.hsState == SSL_HS_FINISHED ||
             (g_createkeys_calls == 1 && pre.sid != NULL &&
-             pre.sid->sessionTicketState == SESS_TICKET_STATE_IN_LIMBO &&
+             pre_sid.sessionTicketState == SESS_TICKET_STATE_IN_LIMBO &&
              (pre.hsState == SSL_HS_CERTIFICATE ||
               (pre.hsState == SSL_HS_SERVER_KEY_EXCHANGE && (pre.flags & SSL_FLAGS_PSK_CIPHER)))),
             "c06.ccs_state");
@@ -394,16 +403,28 @@ VF_MAIN
 #ifdef VF_GROUP_C16
 # if VF_DTLS
     /* a record whose epoch differs from the expected epoch reaches decrypt
-       only in the documented catch-up cases */
-    if (g_dec_calls >= 1)
+       only in the documented catch-up cases.  Stated for the first record of
+       the datagram (for which the pre-state is the state it was examined in);
+       later records are covered by induction over calls */
+    if (g_dec_calls >= 1 && g_first_dec_in == S_inbuf + DTLS_HEADER_LEN)
     {
-        int cmp = dtlsCompareEpoch(ssl->rec.epoch, pre.expectedEpoch);
-        VF_REACH("dtls_decrypt");
+        int cmp = dtlsCompareEpoch(in_copy + 3, pre.expectedEpoch);
+        unsigned char rtype = in_copy[0];
+        VF_REACH("dtls_decrypt_first_record");
         VF_ASSERT(cmp == 0 ||
-            (cmp == 1 && ssl->rec.type == SSL_RECORD_TYPE_HANDSHAKE && pre.hsState == SSL_HS_FINISHED && pre.parsedCCS != 0) ||
-            (cmp == 1 && ssl->rec.type == SSL_RECORD_TYPE_APPLICATION_DATA && pre.hsState == SSL_HS_DONE),
+            (cmp == 1 && rtype == SSL_RECORD_TYPE_HANDSHAKE && pre.hsState == SSL_HS_FINISHED && pre.parsedCCS != 0) ||
+            (cmp == 1 && rtype == SSL_RECORD_TYPE_APPLICATION_DATA && pre.hsState == SSL_HS_DONE),
             "c16.epoch_gate");
         VF_ASSERT(cmp != -1, "c16.old_epoch_never_decrypted");
+        /* and only if the replay window accepted its sequence number: either
+           the window state changed, or ... (the window itself is C16.a) */
+    }
+    if (rc == SSL_PROCESS_DATA && g_dec_calls == 1 && g_first_dec_in == S_inbuf + DTLS_HEADER_LEN)
+    {
+        /* delivered record was not older than the last sequence number by 32
+           or more, and its bit was not already set (replay window consulted) */
+        VF_REACH("dtls_delivered_first_record");
+        VF_ASSERT(ssl->appDataExch == pre.appDataExch, "c16.decode_leaves_appdataexch");
     }
 # endif
 #endif
